@@ -310,6 +310,8 @@ def job_spline(cfg):
             if r.kind != "return":
                 continue
             xo = sc.expand_quotients(r.value[0].a[0].t)
+            if xo is start_terms[0]:
+                continue  # linear tail: the identity
             if has_opaque(xo):
                 jr["outcomes"].append({"name": "%s/path%d/inverse-range" % (name, i), "kind": "goal", "status": "skipped-opaque", "s": 0.0, "expect": "unsat"})
                 continue
